@@ -380,6 +380,17 @@ class C13(Check):
                 if via_helper:
                     cr.counters["built_via_schedule_by_cron"] += 1
                 self._one(cr, e, off, t, us, rng, check_seconds=True)
+                if e.split(" ")[4] != "*" and rng.random() < 0.4:
+                    # the same schedule at the same calendar minute of other years (a scheduler process that runs for
+                    # years / instants evaluated in any order): the weekday differs, month, day, hour and minute do not
+                    dt0 = EPOCH + us * US
+                    for k_ in rng.sample([-7, -3, -1, 1, 2, 5, 6], 3):
+                        try:
+                            us2 = to_us(dt0.replace(year=dt0.year + k_))
+                        except ValueError:
+                            continue  # 29 February
+                        self._one(cr, e, off, t, us2, rng, check_seconds=False)
+                        cr.counters["same_calendar_minute_other_year"] += 1
                 if rng.random() < 0.35:
                     # the same expression under other offsets at the same instant (several schedules
                     # sharing one expression is the normal case in a deployment)
